@@ -110,6 +110,7 @@ sens_el = {
     "list": st.lists(st.integers(0, 5), max_size=3),
     "dict": st.dictionaries(st.sampled_from(["k", "j", "q"]), st.integers(0, 5), min_size=1, max_size=2),
     "set": st.sets(st.integers(0, 5), min_size=1, max_size=3),
+    "set2": st.sets(st.integers(0, 6), min_size=2, max_size=2),        # pairs: many distinct sets of one size (and of one sum)
     "cells": st.one_of(st.lists(st.integers(0, 5), max_size=3).map(tuple), st.lists(st.integers(0, 5), max_size=3), st.integers(0, 5)),
 }
 
